@@ -176,8 +176,20 @@ fn parse_inputs(r: &mut Rng, n: usize, signed: bool, radix: u32, count: usize) -
     for _ in 0..(count / 2).max(6) {
         let mut s = r.pick(&base).clone();
         let pos = r.below(s.len() as u64 + 1) as usize;
-        let ins: Vec<u8> = match r.below(4) {
+        let ins: Vec<u8> = match r.below(5) {
             0 => vec![digit_char(radix.min(35) as u8, r.below(2) == 0)], // the digit equal to the radix (invalid unless radix 36)
+            1 => {
+                // bytes that turn into a valid digit under a masking slip (table lookups indexed with `& 0x7f`,
+                // case folding with `| 0x20` / `& !0x20` applied to non-letters): a valid digit character with
+                // bit 7 set, with bit 5 cleared/set, and two-byte UTF-8 characters whose bytes both alias to digits
+                let d = digit_char(r.below(radix.min(36) as u64) as u8, r.below(2) == 0);
+                match r.below(4) {
+                    0 => vec![d | 0x80],
+                    1 => vec![if d.is_ascii_digit() { d & !0x20 } else { d ^ 0x40 }],
+                    2 => vec![0xc2, 0xb0 + (r.below(radix.min(10) as u64) as u8)],          // U+00B0..U+00B9: bytes alias to 'B', '0'..'9'
+                    _ => vec![0xc3, 0xb0 + (r.below(radix.min(10) as u64) as u8)],          // U+00F0..U+00F9: bytes alias to 'C', '0'..'9'
+                }
+            }
             _ => r.pick(&bad).to_vec(),
         };
         if r.below(2) == 0 && pos < s.len() {
